@@ -294,6 +294,80 @@ var xPieces = []piece{
 			fmt.Sprintf("switch %s {\ncase 0, 1:\n\techo \"low\"\ncase %d:\n\techo \"mid\"\n\tfallthrough\ncase 7:\n\techo \"seven\"\ndefault:\n\techo \"other\"\n}", x, 2+r.Intn(4)),
 			fmt.Sprintf("switch s := \"v${%s}\"; s {\ncase \"v1\", \"v2\":\n\techo 12\ncase \"v3\":\n\techo 3\n}", x))
 	}},
+	// literal SPELLINGS: raw vs interpreted strings with escapes, quotes, newlines, with and without
+	// ${}/$$ templates; rune literals; numeric spellings
+	{"rawtemplates", func(r *vh.Rand, p *XProg) {
+		x, s := p.id("x"), p.id("s")
+		esc := pick(r, `\d+`, `\w`, `C:\dir`, `a\qb`)
+		p.Stmts = append(p.Stmts,
+			fmt.Sprintf("%s := %d", x, r.Intn(100)),
+			fmt.Sprintf("%s := %s", s, strs(r, 1)[0]),
+			fmt.Sprintf("echo `raw%s${%s} \"q\" ${%s}$$ end`", strings.ReplaceAll(esc, `\\`, `\`), x, s),
+			fmt.Sprintf("echo `line1\nline2 ${%s+1}\n\tline3 \"${%s}\"`", x, s),
+			fmt.Sprintf("echo \"esc\\t${%s}\\\"q\\\" \\\\ \\u00e9 ${%s}\\n\"", x, s),
+			fmt.Sprintf("echo `no template %s \"q\"`, \"plain \\\"q\\\" \\\\n\", `$$ only ${%s}`, \"$$${%s}$$\"", strings.ReplaceAll(esc, `\\`, `\`), x, x),
+			fmt.Sprintf("echo `${%s}`, `a${%s}`, `${%s}b`, `\"${%s}\"`, `\\${%s}\\`", x, x, x, s, x))
+	}},
+	{"literal-spellings", func(r *vh.Rand, p *XProg) {
+		v := p.id("lit")
+		p.Stmts = append(p.Stmts,
+			fmt.Sprintf("echo 0x1F, 0o17, 0b101, 1_000, 017, 1e3, 1.5e-3, 0x1p-2, %d_0, 0X%X", 1+r.Intn(9), r.Intn(255)),
+			"echo 'a', '\\n', '\\x41', '\\u00e9', '\\'', '\"', '\\\\', '\\000', '世'",
+			fmt.Sprintf("%s := []any{\"\\x41\\101\\u0041\\U00000041\", `\\x41`, \"tab\\there\", `multi\nline`, \"\", ``}", v),
+			fmt.Sprintf("echo %s, len(%s)", v, v))
+	}},
+	// TYPE EXPRESSIONS in every construct that takes types
+	{"typeswitch-types", func(r *vh.Rand, p *XProg) {
+		t, f := p.id("named"), p.id("kind")
+		p.Decls = append(p.Decls,
+			fmt.Sprintf("type %s struct {\n\ta int\n}", t),
+			fmt.Sprintf("func (%s) String() string {\n\treturn \"named\"\n}", t),
+			fmt.Sprintf(`func %[2]s(v any) string {
+	switch x := v.(type) {
+	case []int:
+		return "[]int" + len(x).string
+	case *%[1]s:
+		return "*named"
+	case map[string]int:
+		return "map"
+	case func(int) string:
+		return x(%[3]d)
+	case chan int, <-chan string:
+		return "chan"
+	case [2]bool:
+		return "array"
+	case struct{ a int }:
+		return "struct"
+	case %[1]s:
+		return "named" + x.a.string
+	case []%[1]s, *int, **%[1]s:
+		return "list"
+	case [][]string, map[int][]%[1]s:
+		return "nested"
+	case error:
+		return "error"
+	case interface{ String() string }:
+		return "stringer"
+	case nil:
+		return "nil"
+	}
+	return "other"
+}`, t, f, r.Intn(9)))
+		p.Stmts = append(p.Stmts,
+			fmt.Sprintf("echo %[2]s([]int{1}), %[2]s(&%[1]s{}), %[2]s(map[string]int{}), %[2]s(func(i int) string { return i.string }), %[2]s(make(chan int)), %[2]s([2]bool{}), %[2]s(struct{ a int }{1}), %[2]s(%[1]s{%[3]d}), %[2]s([]%[1]s{}), %[2]s([][]string{}), %[2]s(nil), %[2]s(1.5)", t, f, r.Intn(9)))
+	}},
+	{"type-exprs", func(r *vh.Rand, p *XProg) {
+		t := p.id("rec")
+		v := p.id("iv")
+		p.Decls = append(p.Decls, fmt.Sprintf("type %s struct {\n\ta int\n\tb []string\n}", t))
+		p.Stmts = append(p.Stmts,
+			fmt.Sprintf("var %s any = []%s{{%d, nil}}", v, t, r.Intn(9)),
+			fmt.Sprintf("if s, ok := %s.([]%s); ok {\n\techo len(s), s[0].a\n}", v, t),
+			fmt.Sprintf("_, ok%s := %s.(map[string][]int)\n_, ok2%s := %s.(func(...int) (int, error))\necho ok%s, ok2%s", v, v, v, v, v, v),
+			fmt.Sprintf("echo []byte(\"hi\"), []rune(\"hé\"), string([]byte{65, 66}), float64(%d)/2, (*%s)(nil) == nil, (func())(nil) == nil, map[string]int(nil) == nil, %s(struct {\n\ta int\n\tb []string\n}{1, nil}).a, uint8(%d), int64(-1)", r.Intn(9), t, t, r.Intn(200)),
+			fmt.Sprintf("echo []%s{{1, nil}, {a: 2}}, map[string][]int{\"a\": {1}}, [...]int{1, 2, %d}, &%s{b: [\"x\"]}, struct{ a int }{1}, [2][]string{{\"a\"}, nil}, map[[2]int]*%s{{1, 2}: nil}, []*%s{{a: 1}}[0].a, []func() int{func() int { return %d }}[0]()", t, r.Intn(9), t, t, t, r.Intn(9)),
+			fmt.Sprintf("var (\n\tf%s func(a int, b ...string) (n int, err error)\n\tc%s chan<- []int\n\tp%s **%s\n\tm%s map[string]map[int]bool\n\tarr%s [3][2]int\n)\necho f%s == nil, c%s == nil, p%s == nil, len(m%s), arr%s", v, v, v, t, v, v, v, v, v, v, v))
+	}},
 	{"closures", func(r *vh.Rand, p *XProg) {
 		f := p.id("counter")
 		p.Decls = append(p.Decls, fmt.Sprintf("func %s(step int) func() int {\n\tn := 0\n\treturn func() int {\n\t\tn += step\n\t\treturn n\n\t}\n}", f))
